@@ -59,7 +59,7 @@ for the header and one per further line, except a second line that starts
 with `DefaultDirection` -/
 theorem pinToTsvLines_length (sepC : Char) (sepP : Str) (ls out : List Str)
     (h : pinToTsvLines sepC sepP ls = .ok out) :
-    out.length + (if ((ls[1]?.map (fun l => isDD (strip l))).getD false) then 1 else 0) = ls.length := by
+    out.length + (if ((ls[1]?.map (fun l => isDD (chomp l))).getD false) then 1 else 0) = ls.length := by
   cases ls with
   | nil => simp [pinToTsvLines] at h
   | cons a r =>
@@ -85,7 +85,7 @@ theorem isValid_ok_of_two (sepC : Char) (text : Str) (h : 2 ≤ (pyLines text).l
 theorem DocWF.two_lines {sepC : Char} {d : PinDoc} (h : DocWF sepC d) :
     2 ≤ (pyLines (renderPin sepC d)).length := by
   unfold renderPin
-  rw [pyLines_renderLines _ _ h.lines_no_nl (Or.inr h.last_ne_nil)]
+  rw [pyLines_renderLines _ _ h.lines_no_nl h.last_ok]
   obtain ⟨x, r, e⟩ := h.lines_two
   rw [e]
   cases r with
